@@ -80,6 +80,19 @@ CHECKS["C17"] = dict(
     technique="who-may-write queries + value-range dataflow + dominance checks + table agreement",
     design="3/C17")
 
+CHECKS["C07"] = dict(
+    text="Decides the memory-safety and framing clauses on all paths of the tcp/tls receive chains (helpers inlined): the announced length "
+         "is used only after the header was validated in the same call, and the invalid edge marks the connection bad(EPROTO) and returns "
+         "-1/EPROTO; the set of announced lengths the receiver accepts is decided exactly (the predicate's AST folded over every critical "
+         "point with 32-bit wrap-around) and must equal [1, max_msg], which is what the sender's guard establishes at acceptance; every "
+         "lower-layer read goes to the mbuf's write cursor with exactly the spare capacity ensured before and asks for exactly the missing "
+         "part of the header/payload; the sticky flag is only ever set; a TLS protocol error drains OpenSSL's per-thread error queue on every "
+         "path. Not decided: crashes inside OpenSSL/c-ares, pointer arithmetic outside the modelled sinks.",
+    note=TRUSTED + " The final implication from these premises to 'no out-of-bounds write for any byte stream' (payload_len + 4 <= MBUF_WIRE_MAX, "
+         "buffered <= announced) is argued in DESIGN.md section 3/C07, not mechanised.",
+    technique="path-sensitive typestate exploration with inlining + exact predicate folding + bounded-write dataflow",
+    design="3/C07")
+
 NOT_APPLICABLE = {}
 
 
